@@ -20,6 +20,8 @@ CFG = {'assumptions': ["64*len(words) < 2^31 (Go's int32 positions cannot overfl
         'bitmap.IndexRank/all': 'IndexRank64(words), IndexRank64(words, true), IndexRank128(words) side by side',
         'bitmap.IndexRank/rle': 'the same on a run-length encoded bitmap [[count, word], ...]',
         'bitmap.Rank/rle': 'Rank64 / Rank128 on a run-length encoded bitmap',
+        'bitmap.IndexRank/session': 'a list of (flavour, run-length encoded bitmap) index builds in one process, each returned index reported, used for one query at the last position and then overwritten with junk by the caller; the list is run twice',
+        'bitmap.IndexRank64/concurrent': 'IndexRank64 of two large bitmaps from 2..4 goroutines released together (several rounds): sampled entries of the single-caller index + one equal-to-single-caller flag per concurrent call',
         'bitmap.Rank/history': 'several bitmaps with HELD indexes, queried in any order; a word is overwritten IN PLACE and '
                                'the same backing slice is re-indexed (order of the IndexRank64 calls alternating)'},
  'rule': 'cases = held indexes over ascending sizes; exhaustive sweeps (constant bitmaps of 0..5 words, single/two-bit '
@@ -32,6 +34,6 @@ CFG = {'assumptions': ["64*len(words) < 2^31 (Go's int32 positions cannot overfl
          'words; run-length encoded bitmaps of 1024/1280/2048/4100 words with an all-zero run aligned to a '
          '64..1024-word boundary after a non-empty prefix (indexes + probes right after the run); histories over 2..4 '
          'bitmaps (several of the same length, some sharing their low halves) and over ONE bitmap whose middle words are '
-         'overwritten in place. Non-trivial: a rank case when there are 1-bits before the queried word, and inside it '
+         'overwritten in place; sessions with bitmaps of 0..7 words after bitmaps whose length sits next to a size threshold (1025, 3073, 4097, 6145 words; 21 sizes in the thorough tier); concurrent builds of 2^17+3-word bitmaps. Run-length encoded bitmaps are expanded into a window of a longer array whose spare capacity holds junk. Non-trivial: a rank case when there are 1-bits before the queried word, and inside it '
          'both below and at/above i; an index case when the bitmap has >1 word and >0 bits; every widening case with '
          '1-bits on the relevant sides; distinct = distinct (op,args)'}
